@@ -11,10 +11,8 @@ RULE = ("every extensible host map (options, MakeCredential / GetAssertion exten
         "(transports, credBlob, minPinLength, credProps, hmac-secret-mc, prf). Each case is paired with the same request without the member: "
         "both must decode, and to the same value. Non-trivial = distinct (host, position, unknown value)")
 ASSUMPTIONS = ["unknown values with non-minimal or 8-byte LENGTH heads are rejected with 0x12 by the skipper (C05 demands that for non-minimal encodings); C06 quantifies over shortest-form lengths"]
-TECHNIQUE = "Coq proof: skipper consumes exactly one item for every definite-length CBOR tree (induction, unbounded depth) + decoder entry-loop lemma; paired differential run"
-LEVEL_TEXT = ("Theorem: for every abstract CBOR item in shortest-length definite form (any nesting, tags, floats, simple values, any integer head width) "
-              "the model of cbor-smol's skipper consumes exactly its encoding and nothing else; the typed decoder routes unknown text keys to the "
-              "skipper. Differential run pairs every request with an unknown member against the same request without it.")
+TECHNIQUE = "Coq proof: skipper consumes exactly one item for every definite-length CBOR tree (induction, unbounded depth); text-keyed maps decode to the same record with or without any number of unknown members at any positions (entry-loop theorem); paired differential run"
+LEVEL_TEXT = ("Theorems: for every abstract CBOR item in shortest-length definite form (any nesting, tags, floats, simple values, any integer head width) the model of cbor-smol's skipper consumes exactly its encoding and nothing else (c06_skip_exact); a text-keyed map with ANY number of unknown members holding ANY such items at ANY positions decodes to exactly the record of the same map without them (c06_unknown_members_irrelevant); the host maps are text-keyed in the regenerated declarations. Differential run pairs every request with an unknown member against the same request without it.")
 feature_sets = default_feature_sets
 
 HOSTS = ["ctap2::AuthenticatorOptions", "ctap2::make_credential::Extensions", "ctap2::get_assertion::ExtensionsInput",
